@@ -19,13 +19,14 @@ namespace AgpTpf.C15
 open AgpTpf.Cache
 
 /-! ### Tie to the source (regenerated on every run by harness/extract_constants.py)
-The safety theorem below is about the ATOMIC protocol; these two guards fail to build when the source stops writing the
-cache through a temporary file + `os.replace`, or changes the strict `>` of the freshness test. -/
+The safety theorem below is about the ATOMIC protocol; this guard fails to build when the source stops writing the
+cache through a temporary file + `os.replace`. -/
 
 /-- `FastaIndex.write_index` / `write_assembly` do not open the final cache names for writing and the class calls `os.replace`. -/
 theorem source_protocol_is_atomic : Gen.cacheWritesAtomic = true := rfl
-/-- the freshness test in `check_for_index_files` is the strict comparison the model's `newer` implements. -/
-theorem source_mtime_test_is_strict : Gen.cacheMtimeTest = "idx_file.stat().st_mtime > fasta_mtime" := rfl
+/- (the strictness of the freshness test in `check_for_index_files` — the comparison the model's `newer` implements — is tied semantically, not
+   textually: `Properties/C15Imp.lean`, `check_for_index_files_is_source` / `check_for_index_files_is_model_test`, about the method as translated
+   from the current source) -/
 
 /-! ### Safety of the atomic protocol: every reachable state, any number of processes, steps, crashes, races -/
 
